@@ -896,6 +896,13 @@ func (r *crudRun) lookups(t *crudTable) {
 		} else if !r.compareSlice(t, out[0], want, name) {
 			return
 		}
+		if _, exists := r.fn("Select" + T + "By" + c.Field); exists && !c.Unique && len(want) >= 2 {
+			// a single-row lookup generated for a key the schema does not make unique
+			// (e.g. a column that is only PART of a composite UNIQUE / PRIMARY KEY)
+			r.call("Select"+T+"By"+c.Field, r.dbArg(), keyArg)
+			r.violate("model-mismatch:single-row-lookup-on-non-unique-key", "Select%sBy%s returns one row but %d rows of the model (admitted by the generated schema) match key %d: it cannot return exactly the matching rows", T, c.Field, len(want), key)
+			return
+		}
 		if c.Unique {
 			if out, ok := r.call("Select"+T+"By"+c.Field, r.dbArg(), keyArg); ok {
 				if !out[1].Bool() || !r.sameRow(out[0], want[0], "Select"+T+"By"+c.Field) {
